@@ -260,9 +260,13 @@ def repeat(hm0: bool, hs0: bool, ha1: bool, n0: int, p0: int) -> bool:
     hooks = {"pre_model": hm0, "post_model": False, "pre_sys": [hs0, False], "post_sys": [False, False],
              "pre_grp": [False, False], "post_grp": [ha1, False]}
     models = []
+    kept = {}
     for mod in seq:
         del LOG[:]
         data, exp = _describe(mod, 1, 1, hooks, [n0, 0], [p0, 0], [(0, 5, 1), (0, 5, 1)])
+        if hx.P.get('same_dict'):
+            # a decoder that keeps the parsed description in memory hands the SAME dict object to every decode
+            data = kept.setdefault(mod, data)
         model = Dec(data).decode("f")
         if _check_log(LOG, exp, model, mod) is not True:
             return hx.end(False)
@@ -323,6 +327,7 @@ def obligations(tier):
         return tuple(out)
     return [
         X("lifecycle", lifecycle, parts=parts, labels=("rich", "empty_group", "nested", "swapped"), labels_for=lab, timeout=1200, encoded=enc),
-        X("repeat", repeat, parts=[{"seq": [MOD, MOD]}, {"seq": [MOD, "vf_c18_alt"]}, {"seq": ["vf_c18_alt", MOD, "vf_c18_alt"]}],
+        X("repeat", repeat, parts=[{"seq": [MOD, MOD]}, {"seq": [MOD, "vf_c18_alt"]}, {"seq": ["vf_c18_alt", MOD, "vf_c18_alt"]},
+                 {"seq": [MOD, MOD], "same_dict": True}, {"seq": [MOD, "vf_c18_alt", MOD], "same_dict": True}],
           labels=("done",), timeout=600, encoded=enc),
     ]
